@@ -66,7 +66,7 @@ def run(ctx):
 def _run(ctx):
     from cij.core.calculator import Calculator, CijVolumeBaseInterface
     from cij.util import c_
-    n = ctx.pick(360, 40000)
+    n = ctx.pick(360, 400000)
     for i in range(n):
         case_id = f"field{i}"
         if not ctx.mine(i, case_id):
